@@ -129,3 +129,13 @@ From GA Require Import Pipe SerdeProg SerdeTie.
 From GAGen Require Import GenSerde.
 Theorem C17_source_visit_seq : forall n s, vrun n s gen_visit_seq = Some (visit_seq n s).
 Proof. exact tie_visit_seq. Qed.
+
+(* Serialize::serialize as it stands in src/impl_serde.rs now (regenerated): serialize_tuple(N), one
+   serialize_element per element in index order, end() -- the hub's token stream, for every array *)
+Theorem C17_source_serialize : forall a, ser_run gen_serialize a = Some (serialize a).
+Proof. exact tie_serialize. Qed.
+
+(* Deserialize::deserialize (regenerated): deserialize_tuple(N::USIZE, visitor), the visitor holding no data *)
+Theorem C17_source_deserialize :
+  gen_deserialize = ("deserialize_tuple", "N :: USIZE", ["_t : PhantomData"; "_n : PhantomData"])%string.
+Proof. exact tie_deserialize. Qed.
